@@ -271,6 +271,18 @@ def finish_hit_rates(ctx):
             ctx.extra[name]["(cases)"] = n
 
 
+def impl_failed(ctx, component, case, model_line, err):
+    """the code under test raised on a generated case (or reported a volume that is no whole number of
+    days): never a harness error - a disagreement with the model, and a violation where the property's
+    own observable is concerned"""
+    kind, msg = err
+    ctx.disagree(component, {"case": list(case)}, model_line, "implementation: " + msg)
+    ctx.count("impl_" + kind)
+    if kind == "non-integer-days":
+        ctx.violate("volume-not-integer-days",
+                    "a reported volume is not an integer number of days x rate x 86.4 (" + msg + ")", {"case": list(case)})
+
+
 def correspond(ctx, cases, component="emission"):
     """runs implementation and model on the cases; returns list of (case, impl_result_dict, model_line, impl_line)"""
     from harness.adapters import emission as E
@@ -279,8 +291,11 @@ def correspond(ctx, cases, component="emission"):
     model = LeanDriver("drv_emission").run(lines)
     out = []
     for c, ml in zip(cases, model):
-        il = E.impl_line(c)
+        il, err = E.safe_impl_line(c)
         ctx.evaluations += 1
+        if err is not None:
+            impl_failed(ctx, component, c, ml, err)
+            continue
         if il != ml:
             ctx.disagree(component, {"case": list(c)}, ml, il)
             ctx.count("disagree")
@@ -294,6 +309,21 @@ def correspond(ctx, cases, component="emission"):
         out.append((c, res, ml, il))
     ctx.traces += len(cases)
     return out
+
+
+def baseline_result(ctx, cache, case):
+    """(summary dict, per-day trace) of the no-event run of the same emission on the real classes,
+    cached; None (and a recorded disagreement) if the code under test raised"""
+    bk = case[:8]
+    if bk not in cache:
+        try:
+            cache[bk] = impl_full(without_events(case))
+        except (Exception, SystemExit) as e:  # noqa: BLE001
+            ctx.disagree("emission/no-event-run", {"case": list(without_events(case))}, "no exception",
+                         "implementation: %s: %s" % (type(e).__name__, e))
+            ctx.count("impl_exception")
+            cache[bk] = None
+    return cache[bk]
 
 
 def impl_result(case):
@@ -325,27 +355,95 @@ def life_trace(per_day):
 # whole-run stage shared by C02 / C03 / C04 (/ C11): real simulator runs, records joined with the
 # baseline program's records of the same simulation, tag events of each record's component
 # ------------------------------------------------------------------------------------------------
-def run_configs(ctx, n, extra_sources_every=0, **overrides):
+# shapes of whole simulations the C02-C04 stage cycles through (index -> overrides of make_config);
+# `k` counts the rounds, so that a shape varies from round to round.  Dates are put in on purpose:
+# periods that neither start on Jan 1 nor end on Dec 31, straddle New Year and Feb 29, end on day-of-year
+# 366, last 1 or 2 days, and a period repeated exactly one year later.
+def _shape_boundary(k):
+    periods = [([2023, 11, 1], [2024, 11, 20]),   # straddles New Year and Feb 29 2024, ends mid-November
+               ([2023, 3, 1], [2023, 9, 17]),
+               ([2024, 3, 1], [2024, 9, 17]),     # the same period exactly one year later (same length)
+               ([2024, 1, 1], [2024, 12, 30]),    # ends one day before Dec 31 of a leap year
+               ([2022, 12, 31], [2023, 12, 31])]  # starts on Dec 31, first day is the last of a year
+    st, en = periods[k % len(periods)]
+    return {"start": st, "end": en, "n_sims": 2, "n_sites": 5}
+
+
+def _shape_extra_sources(k):
+    # two programs one after another in ONE process (debug path) over a world with non-repairable,
+    # intermittent non-repairable and intermittent repairable sources
+    return {"granular": True, "extra_sources": True}
+
+
+def _shape_tiny(k):
+    st = [[2022, 7, 1], [2024, 2, 29], [2023, 12, 31]][k % 3]
+    from datetime import date as _d, timedelta as _t
+
+    e = _d(*st) + _t(days=k % 2)  # 1-day and 2-day periods (the 2-day ones may straddle New Year)
+    if (e.month, e.day) < (st[1], st[2]):
+        e = _d(*st)  # the planner crashes on a trailing partial year (finding recorded under C06)
+    return {"start": st, "end": [e.year, e.month, e.day], "n_sites": 10, "pre_sim_emissions": True,
+            "rep": {"epr": 0.03125, "duration": 60, "multi": True},
+            "nonrep": {"epr": 0.015625, "duration": 20, "multi": True}}
+
+
+def _shape_pool(k):
+    # process pool, two simulations, baseline program listed last
+    st, en = [([2024, 2, 27], [2024, 6, 15]), ([2023, 2, 27], [2023, 6, 15])][k % 2]
+    return {"start": st, "end": en, "n_sims": 2, "n_sites": 5, "granular": True, "extra_sources": True,
+            "_mode": {"debug": False, "processes": 2}, "_baseline_last": True}
+
+
+def _shape_default(k):
+    return {}
+
+
+def _shape_doy366(k):
+    return {"start": [2024, 1, 1], "end": [2024, 12, 31], "n_sites": 5, "_baseline_last": k % 2 == 0}
+
+
+WHOLERUN_SHAPES = [_shape_boundary, _shape_extra_sources, _shape_tiny, _shape_pool, _shape_default, _shape_doy366]
+
+
+def run_configs(ctx, n, extra_sources_every=0, crash_is_broken=False, shapes=False, **overrides):
     """n generated configurations run by the real simulator (in parallel); returns list of Result.
     `extra_sources_every=k`: every k-th configuration is granular with the opt-in extra sources
     (non-persistent non-repairable source, second repairable source on one component)"""
     import concurrent.futures as cf
     from harness import wholerun as W
 
-    cfgs = []
+    cfgs, modes = [], []
     for i in range(n):
         ov = dict(overrides)
-        if extra_sources_every and i % extra_sources_every == extra_sources_every - 1:
+        mode = {"debug": True, "processes": 1}
+        if shapes:
+            ov.update(WHOLERUN_SHAPES[i % len(WHOLERUN_SHAPES)](i // len(WHOLERUN_SHAPES)))
+            mode = ov.pop("_mode", mode)
+            reverse_programs = ov.pop("_baseline_last", False)
+        elif extra_sources_every and i % extra_sources_every == extra_sources_every - 1:
             ov.update(granular=True, extra_sources=True)
-        cfgs.append(W.make_config(ctx.rng, **ov))
+        cfg = W.make_config(ctx.rng, **ov)
+        if shapes and reverse_programs:
+            cfg["programs"] = list(reversed(cfg["programs"]))
+        cfgs.append(cfg)
+        modes.append(mode)
+        if shapes:
+            ctx.count("wholerun_shape:%d" % (i % len(WHOLERUN_SHAPES)))
     with cf.ThreadPoolExecutor(max_workers=min(8, max(1, n))) as ex:
-        results = list(ex.map(lambda c: W.run_config(c, debug=True, trace=True), cfgs))
+        results = list(ex.map(lambda cm: W.run_config(cm[0], debug=cm[1]["debug"], processes=cm[1]["processes"],
+                                                      trace=True), zip(cfgs, modes)))
     good = []
     for r in results:
         if r.rc != 0:
             ctx.count("wholerun_config_crashed")
-            ctx.note("whole run crashed (skipped here; crashes are judged by the property that owns them): "
-                     + r.log.strip().splitlines()[-1][:200])
+            tail = r.log.strip().splitlines()[-1][:200] if r.log.strip() else "(no output)"
+            if crash_is_broken:
+                # never a silent skip: the generated configurations are valid, so a crash means the current
+                # code no longer runs what the correspondence is about; the other stages keep searching
+                ctx.broke("whole run crashed", {"cfg": {k: r.cfg[k] for k in ("granular", "start", "end", "n_sites", "n_sims")},
+                                                "programs": [p["name"] for p in r.cfg["programs"]],
+                                                "log_tail": r.log[-1500:]})
+            ctx.note("whole run crashed: " + tail)
             last = r.log
             r.cleanup()
             continue
@@ -535,7 +633,7 @@ def base_fields(rec):
 def wholerun_stage(ctx, n_quick, n_thorough, per_record, per_result=None, **overrides):
     """runs generated configurations through the real simulator; trace conformance of every record
     against the Lean model; `per_record(ctx, res, rec)` evaluates the property's oracle"""
-    results = run_configs(ctx, ctx.pick(n_quick, n_thorough), extra_sources_every=2, **overrides)
+    results = run_configs(ctx, ctx.pick(n_quick, n_thorough), shapes=True, crash_is_broken=True, **overrides)
     try:
         for res in results:
             recs = list(records(res))
@@ -557,7 +655,8 @@ def wholerun_stage(ctx, n_quick, n_thorough, per_record, per_result=None, **over
             if per_result is not None:
                 per_result(ctx, res, recs)
             ctx.count("wholerun_configs")
-            ctx.sample({"whole_run": {k: res.cfg[k] for k in ("granular", "start", "end", "n_sites", "repair_delay")},
+            ctx.sample({"whole_run": {k: res.cfg[k] for k in ("granular", "start", "end", "n_sites", "n_sims", "repair_delay")},
+                        "programs": [p["name"] for p in res.cfg["programs"]], "processes": res.cfg.get("processes"),
                         "sources": [(x["source"], x["component"], x["repairable"], x["persistent"])
                                     for x in res.cfg.get("sources", [])],
                         "records": len(recs)}, cap=8)
@@ -632,7 +731,7 @@ def world_emission_results(world, with_events=True, traces=None):
         for spec, em in zip(ems, objs):
             sd = em.get_summary_dict(E.summary_end_date(n))
             case = tuple(spec[:7]) + (n, list(evs))
-            out.append((case, parse_summary(E.summary_line(em, sd))))
+            out.append((case, parse_summary(E.summary_line(em, sd, rate=spec[7] / 1024.0))))
             if traces is not None:
                 traces.append(per_day.get(id(em), []))
     return out
@@ -649,8 +748,14 @@ def shared_component_stage(ctx, per_emission, per_trace=None):
 
     for w in worlds:
         t1, t0 = ([], []) if per_trace is not None else (None, None)
-        with_ev = world_emission_results(w, True, traces=t1)
-        without = world_emission_results(w, False, traces=t0)
+        try:
+            with_ev = world_emission_results(w, True, traces=t1)
+            without = world_emission_results(w, False, traces=t0)
+        except (Exception, SystemExit) as e:  # noqa: BLE001
+            ctx.disagree("emission/shared-component", {"world": w}, "no exception",
+                         "implementation: %s: %s" % (type(e).__name__, e))
+            ctx.count("impl_exception")
+            continue
         for i, ((case, res), (_, base)) in enumerate(zip(with_ev, without)):
             lines.append(E.case_line(case))
             owners.append((w, case, res, base))
@@ -670,3 +775,292 @@ def shared_component_stage(ctx, per_emission, per_trace=None):
             ctx.nontrivial.add(("sc",) + k)
     ctx.traces += len(worlds)
     ctx.count("shared_component_worlds", len(worlds))
+
+
+# ------------------------------------------------------------------------------------------------
+# hardening stages (audit/LESSONS.md items 1-4, 7), shared by C02 / C03 / C04.
+# `per_case(ctx, case, result, baseline_result, origin)` is the property's own oracle.
+# ------------------------------------------------------------------------------------------------
+# copy / pickle hooks and shared containers of the modelled classes as they are in the accepted tree.
+# A NEW entry (a __deepcopy__ hook, a class-level cache, ...) re-opens the obligation "per-program copies of
+# the world share nothing" that the model takes for granted (it has no cross-case state).
+EXPECTED_HOOKS = [
+    "component.py:Component.__reduce__",
+    "emission.py:Emission.EMIS_SUMMARY_DTYPES={}",
+    "emission.py:Emission.__reduce__",
+    "emission.py:Emission.__setstate__",
+    "intermittent_non_repairable_emission.py:IntermittentNonRepairableEmission.__reduce__",
+    "intermittent_non_repairable_emission.py:IntermittentNonRepairableEmission.__setstate__",
+    "intermittent_repairable_emission.py:IntermittentRepairableEmission.__reduce__",
+    "intermittent_repairable_emission.py:IntermittentRepairableEmission.__setstate__",
+    "non_repairable_emissions.py:NonRepairableEmission.__reduce__",
+    "non_repairable_emissions.py:NonRepairableEmission.__setstate__",
+    "repairable_emission.py:RepairableEmission.__reduce__",
+    "repairable_emission.py:RepairableEmission.__setstate__",
+    "sources.py:Source.__reduce__",
+]
+
+CALENDAR_STARTS = [(2023, 12, 30), (2024, 12, 30), (2024, 2, 27), (2023, 2, 27), (2024, 1, 1), (2020, 2, 29),
+                   (2022, 12, 31), (2022, 3, 1)]  # the last one: the default start shifted by exactly one year
+
+MARKER_NAMES = ["natural", "expired", "N/A", "None", "", "OGI_FU", "OGI_FU2", "kept", "0", "c1_", "Logs"]
+
+
+def hook_table_stage(ctx):
+    from harness.adapters import emission as E
+
+    problems, table = E.hook_table()
+    for p in problems:
+        ctx.broke("copy-hook table of the emission classes", p)
+    new = [t for t in table if t not in EXPECTED_HOOKS]
+    gone = [t for t in EXPECTED_HOOKS if t not in table]
+    if new:
+        ctx.broke("copy-hook / shared-container table of the emission classes",
+                  "entries that the accepted tree does not have (per-program copies and consecutive cases may now "
+                  "share state; the copy / history stages look for a failing input): %s" % new)
+    if gone:
+        ctx.note("copy-hook table: entries of the accepted tree no longer present: %s" % gone)
+    ctx.extra["copy_hook_table"] = table
+
+
+def _sample(ctx, results, k, pred=lambda c, res: True):
+    pool = [(c, res, il) for (c, res, ml, il) in results if pred(c, res)]
+    ctx.rng.shuffle(pool)
+    return pool[:k]
+
+
+def history_stage(ctx, results, per_case):
+    """same-process history: cases whose identifiers collide (every case uses emission id 1, component
+    "comp_1", source "S") but whose values differ are run one after another, in both orders; each result must
+    be the one the case gave before (and gives alone - the model has no cross-case state)"""
+    from harness.adapters import emission as E
+
+    sample = _sample(ctx, results, ctx.pick(400, 5000), lambda c, res: res["status"] != "inactive")
+    for order, seq in (("forward", sample), ("reverse", list(reversed(sample)))):
+        for c, res, il in seq:
+            got, err = E.safe_impl_line(c)
+            ctx.evaluations += 1
+            if err is not None or got != il:
+                ctx.disagree("emission/same-process-history(%s)" % order, {"case": list(c)}, il,
+                             got if err is None else "implementation: " + err[1])
+                ctx.count("history_disagree")
+                if err is None:
+                    base = impl_result(without_events(c))
+                    per_case(ctx, c, parse_summary(got), base, "history")
+    ctx.count("history_cases", 2 * len(sample))
+
+
+def shared_input_stage(ctx, per_case):
+    """several real emissions created by ONE real Source from ONE delay list / cost list / pair of coverage
+    dictionaries: the shared inputs must be deep-equal afterwards, emissions with equal (start, drawn delay)
+    must end equal, and every emission must behave like the model with its drawn delay"""
+    from harness.adapters import emission as E
+
+    specs = []
+    for _ in range(ctx.pick(150, 2500)):
+        rep, inter, ad, idur = ctx.rng.choice(KINDS)
+        n = ctx.rng.randint(2, 10)
+        nrd = ctx.rng.randint(1, 7)
+        specs.append({"rep": rep, "inter": inter, "ad": ad, "idur": idur, "nrd": nrd,
+                      "delays": [ctx.rng.randint(0, 4) for _ in range(ctx.rng.randint(1, 4))],
+                      "costs": [float(ctx.rng.choice([64, 128, 256])) for _ in range(ctx.rng.randint(1, 3))],
+                      "covs": {"c1": 1.0, "c2": 0.5},
+                      "starts": [ctx.rng.randint(-nrd, n) for _ in range(ctx.rng.randint(2, 5))],
+                      "events": sorted((ctx.rng.randrange(n), ctx.rng.randint(1, 2), ctx.rng.choice([0, 0, 2]))
+                                       for _ in range(ctx.rng.choice([0, 1, 1, 2]))),
+                      "n": n, "seed": ctx.rng.randrange(1 << 30)})
+    lines, owners = [], []
+    for sp in specs:
+        try:
+            out = E.run_shared_source(sp)
+        except (Exception, SystemExit) as e:  # noqa: BLE001
+            ctx.disagree("emission/shared-inputs", {"shared_source_spec": sp}, "no exception", "implementation: %s: %s" % (type(e).__name__, e))
+            ctx.count("impl_exception")
+            continue
+        ctx.evaluations += 1
+        if not out["inputs_unchanged"]:
+            ctx.disagree("emission/shared-inputs", {"shared_source_spec": sp}, "inputs deep-equal before/after",
+                         {"before": out["inputs_before"], "after": out["inputs_after"]})
+            ctx.count("shared_inputs_mutated")
+        same = {}
+        for drawn, st, line in out["results"]:
+            if same.setdefault((drawn, st), line) != line:
+                ctx.disagree("emission/shared-inputs", {"shared_source_spec": sp}, same[(drawn, st)], line)
+                ctx.count("shared_inputs_equal_specs_differ")
+            case = (st, sp["nrd"], drawn, sp["rep"], sp["inter"], sp["ad"], sp["idur"], sp["n"], list(sp["events"]))
+            lines.append(E.case_line(case))
+            owners.append((sp, case, line))
+    model = LeanDriver("drv_emission").run(lines)
+    for (sp, case, line), ml in zip(owners, model):
+        if ml.split(" | ")[0] != line:
+            ctx.disagree("emission/shared-inputs", {"shared_source_spec": sp, "case": list(case)}, ml.split(" | ")[0], line)
+            ctx.count("shared_inputs_disagree")
+            per_case(ctx, case, parse_summary(line), impl_result(without_events(case)), "shared-inputs")
+    ctx.traces += len(specs)
+    ctx.count("shared_input_specs", len(specs))
+    ctx.count("shared_input_emissions", len(owners))
+
+
+def copy_stage(ctx, per_case):
+    """what simulate() does to the world: every program works on its own deep copy, pool workers on an
+    unpickled copy.  One real Component (several emissions of mixed kinds) is built once; a deep copy runs a
+    program (events), then a second deep copy of the SAME original runs without events, then a pickle round
+    trip runs the program again.  Every copy must end like a freshly built world, the original must still be
+    pristine, and no emission object may be shared between the original and a copy."""
+    import copy
+    import pickle
+    from harness.adapters import emission as E
+
+    worlds = [small_world(ctx.rng) for _ in range(ctx.pick(250, 4000))]
+    for w in worlds:
+        n = w[0]
+        try:
+            fresh_prog = [x for comp, evs, _, _ in _driven(E, w, True) for x in E.component_summaries(comp, n, None)]
+            fresh_base = [x for comp, evs, _, _ in _driven(E, w, False) for x in E.component_summaries(comp, n, None)]
+            original = E.build_components(w)
+            pristine = pickle.dumps([c for c, _, _, _ in original])
+            c1 = [(copy.deepcopy(comp), evs) for comp, evs, _, _ in original]
+            shared = [type(a).__name__ for (comp, _, _, _), (cc, _) in zip(original, c1)
+                      for a in E.component_emissions(comp) for b in E.component_emissions(cc) if a is b]
+            E.drive_components(c1, n, True)
+            got_prog = [x for cc, _ in c1 for x in E.component_summaries(cc, n, None)]
+            c2 = [(copy.deepcopy(comp), evs) for comp, evs, _, _ in original]
+            E.drive_components(c2, n, False)
+            got_base = [x for cc, _ in c2 for x in E.component_summaries(cc, n, None)]
+            c3 = [(pickle.loads(pickle.dumps(comp)), evs) for comp, evs, _, _ in original]
+            E.drive_components(c3, n, True)
+            got_pickled = [x for cc, _ in c3 for x in E.component_summaries(cc, n, None)]
+            still_pristine = pickle.dumps([c for c, _, _, _ in original]) == pristine
+        except (Exception, SystemExit) as e:  # noqa: BLE001
+            ctx.disagree("emission/copies", {"world": w}, "no exception", "implementation: %s: %s" % (type(e).__name__, e))
+            ctx.count("impl_exception")
+            continue
+        ctx.evaluations += 1
+        inp = {"world": w}
+        if shared:
+            ctx.violate(ctx.prop + ":world-copies-share-emissions",
+                        "a deep copy of a Component (what every program of a simulation works on) shares emission "
+                        "objects with the original: %s" % sorted(set(shared)), inp)
+        for name, got, want in (("program on first deep copy", got_prog, fresh_prog),
+                                ("no-LDAR run on a second deep copy, after the first copy ran a program", got_base, fresh_base),
+                                ("program on a pickle round trip", got_pickled, fresh_prog)):
+            if got != want:
+                ctx.disagree("emission/copies: " + name, inp, want, got)
+                ctx.count("copies_disagree")
+        if not still_pristine:
+            ctx.disagree("emission/copies: original after its copies ran", inp, "unchanged (pickle-equal)", "changed")
+            ctx.count("copies_original_touched")
+        if got_base != fresh_base or shared:
+            # failing input for the properties: judge the (contaminated) no-LDAR copy against the fresh one
+            for g, f in zip(got_base, fresh_base):
+                if g != f:
+                    ctx.violate(ctx.prop + ":no-ldar-run-depends-on-earlier-program",
+                                "the no-LDAR run of a world differs when another program ran on a copy of the same "
+                                "world before it in the same process (%s vs alone %s)" % (g, f), inp)
+                    break
+    ctx.traces += len(worlds)
+    ctx.count("copy_worlds", len(worlds))
+
+
+def _driven(E, world, with_events):
+    real = E.build_components(world)
+    E.drive_components([(c, evs) for c, evs, _, _ in real], world[0], with_events)
+    return real
+
+
+def calendar_stage(ctx, results, per_case):
+    """the same cases with other first simulated days: New Year and Feb 29 inside the period, day-of-year 366,
+    a start on Dec 31, the default start shifted by exactly one year.  Results are compared in day indices
+    (obtained by Python date subtraction): the model is calendar-free (`run_shift`), so must the code be."""
+    from datetime import date
+    from harness.adapters import emission as E
+
+    small = _sample(ctx, results, ctx.pick(250, 3000), lambda c, res: res["status"] != "inactive")
+    big = _sample(ctx, results, ctx.pick(12, 150), lambda c, res: c[7] > 300)
+    for (y, m, d) in CALENDAR_STARTS:
+        with E.sim_start(date(y, m, d)):
+            for c, res, il in small + big:
+                got, err = E.safe_impl_line(c)
+                ctx.evaluations += 1
+                if err is not None or got != il:
+                    ctx.disagree("emission/calendar(start %04d-%02d-%02d)" % (y, m, d), {"case": list(c), "sim_start": [y, m, d]},
+                                 il, got if err is None else "implementation: " + err[1])
+                    ctx.count("calendar_disagree")
+                    if err is None:
+                        try:
+                            base = impl_result(without_events(c))
+                            per_case(ctx, c, parse_summary(got), base, "calendar %04d-%02d-%02d" % (y, m, d))
+                        except (Exception, SystemExit):  # noqa: BLE001
+                            pass
+    ctx.count("calendar_cases", len(CALENDAR_STARTS) * (len(small) + len(big)))
+    ctx.count("calendar_starts", len(CALENDAR_STARTS))
+
+
+def marker_name_stage(ctx, results, per_case):
+    """method names that coincide with markers the code uses itself ("natural", "expired", "N/A", ...), names
+    with underscores / digits / prefixes of each other, the empty name: the label must not matter.  Each case
+    is re-run with company k named <name> (k = 1) / <name>_<k>; the result must be the plain one with the
+    labels replaced.  Known: a method named "natural" is never credited with mitigation (finding C02-natural)."""
+    from harness.adapters import emission as E
+
+    sample = _sample(ctx, results, ctx.pick(120, 1500),
+                     lambda c, res: c[8] and res["by"].startswith("c") or (not c[3] and res["initDetectBy"].startswith("c")))
+    for name in MARKER_NAMES:
+        def company(k, name=name):
+            return name if k == 1 else "%s_%d" % (name, k)
+
+        for c, res, il in sample:
+            got, err = E.safe_impl_line(c, company=company)
+            ctx.evaluations += 1
+            want = il.split(" | ")[0].split()
+            if err is not None:
+                ctx.disagree("emission/method-name(%r)" % name, {"case": list(c), "method_name": name}, " ".join(want), "implementation: " + err[1])
+                ctx.count("marker_name_disagree")
+                continue
+            g = got.split(" | ")[0]
+            # re-label the plain result: fields 5 (by) and 8 (initDetectBy) carry company labels
+            def relabel(x):
+                if x.startswith("c") and x[1:].isdigit():
+                    lab = company(int(x[1:]))
+                    return "expire" if lab == "expired" else lab
+                return x
+            w = list(want)
+            w[5], w[8] = relabel(w[5]), relabel(w[8])
+            # the harness' own line format splits on blanks: compare token lists built the same way
+            if g.split(" ") != " ".join(w).split(" ") or got.split(" | ")[1:] != il.split(" | ")[1:]:
+                gres = parse_summary_tokens(g, w)
+                plain = parse_summary(il)
+                if (name == "natural" and c[3] and plain["by"] == "c1" and plain["status"] == "repaired"
+                        and plain["mitDays"] > 0 and gres is not None and gres["mitDays"] == 0
+                        and all(gres[k] == plain[k] for k in ("status", "activeDays", "emitDays", "endDate", "initDetect"))):
+                    if ctx.prop == "C02":  # a statement about mitigation: C03 / C04 do not judge it
+                        ctx.violate("C02:identity:method-named-natural",
+                                    "a method named `natural` repairs a leak but is not credited with the mitigation",
+                                    {"case": list(c), "method_name": name, "implementation": g, "plain_name_result": " ".join(want)})
+                    ctx.count("marker_name:natural-not-credited(C02-natural)")
+                    continue
+                ctx.disagree("emission/method-name(%r)" % name, {"case": list(c), "method_name": name}, " ".join(w), g)
+                ctx.count("marker_name_disagree")
+                if gres is not None:
+                    per_case(ctx, c, gres, impl_result(without_events(c)), "method name %r" % name)
+    ctx.count("marker_name_cases", len(MARKER_NAMES) * len(sample))
+
+
+def parse_summary_tokens(line, like):
+    """parse a summary line whose label fields may be empty / contain no blanks; None if it cannot be aligned"""
+    toks = line.split(" ")
+    if len(toks) != len(like):
+        return None
+    try:
+        return parse_summary(" ".join(t if t != "" else "-" for t in toks))
+    except (ValueError, KeyError):
+        return None
+
+
+def hardening_stages(ctx, results, per_case):
+    hook_table_stage(ctx)
+    history_stage(ctx, results, per_case)
+    shared_input_stage(ctx, per_case)
+    copy_stage(ctx, per_case)
+    calendar_stage(ctx, results, per_case)
+    marker_name_stage(ctx, results, per_case)
